@@ -923,9 +923,24 @@ impl<H: DnsHandle> DnssecDnsHandle<H> {
                     return None;
                 }
 
-                // TODO: Should this sig.signer_name should be confirmed to be in the same zone as
-                // the rrsigs and rrset?
-                //
+                // RFC 4035 5.3.1: the signer's name is the name of the zone that contains the
+                // RRset, so it is the RRset's owner name or an ancestor of it. A signature made
+                // by any other validly chained zone does not authenticate this RRset.
+                if !rrsig
+                    .data()
+                    .input()
+                    .signer_name
+                    .zone_of(&Name::from(&key.name))
+                {
+                    warn!(
+                        rrset_name = ?key.name,
+                        rrset_type = ?key.record_type,
+                        signer_name = %rrsig.data().input().signer_name,
+                        "RRSIG signer name does not enclose the rrset; skipping"
+                    );
+                    return None;
+                }
+
                 // Break verification cycle
                 if query.name == original_query.name
                     && query.query_type == original_query.query_type
